@@ -309,6 +309,7 @@ class NumpyMixin:
         m['sqrt'] = ufunc1(th.num_sqrt, name='sqrt')
         m['fabs'] = ufunc1(th.num_abs, name='fabs')
         m['abs'] = m['fabs']
+        m['hypot'] = ufunc2(th.num_hypot, out='num', name='hypot')
         m['isnan'] = ufunc1(lambda x: th.is_nan(x), 'bool', name='isnan')
         m['less'] = ufunc2(th.num_lt, name='less')
         m['less_equal'] = ufunc2(th.num_le, name='less_equal')
@@ -331,6 +332,29 @@ class NumpyMixin:
                 return L._like(x, lambda i: _Z0)
             return L._like(x, lambda i: z3.BoolVal(False))
         m['zeros_like'] = zeros_like
+
+        class ShapeOf:
+            '''np.shape(a): only usable to build another array of that shape'''
+            def __init__(self, arr):
+                self.arr = arr
+
+        def np_shape(I, x):
+            if isinstance(x, SArr):
+                return ShapeOf(x)
+            raise Undecided('np.shape of a non-array')
+        m['shape'] = np_shape
+
+        def np_zeros(I, shape, dtype=None):
+            if not isinstance(shape, ShapeOf):
+                raise Undecided('np.zeros of an explicit shape')
+            L.use('numpy.zeros(np.shape(a), dtype): fresh array of zeros / False with the shape of a')
+            dn = dtype.name if isinstance(dtype, (SClass, SNamespace)) else dtype
+            if dn in ('bool', 'bool_'):
+                return L._like(shape.arr, lambda i: z3.BoolVal(False), 'bool')
+            if dn in (None, 'float', 'float64', 'float_'):
+                return L._like(shape.arr, lambda i: th.Fin(z3.RealVal(0)), 'num')
+            raise Undecided(f'np.zeros dtype {dtype!r}')
+        m['zeros'] = np_zeros
 
         def full_like(I, x, val, dtype=None):
             L.use('numpy.full_like: fresh array filled with the value, shape of the argument')
